@@ -338,7 +338,7 @@ HARNESSES = {
     "validators_limits": dict(props=["C16"], crates=CR, fn=validators_limits, witnesses=["ok", "rejected"],
                           bound_text="every pair of the six limits at limit-1 / limit / limit+1 / 0, the others at a valid baseline (lengths are concrete: the validators only measure them)",
                           replay=dict(kind="check_set")),
-    "predicate_limits": dict(props=["C16", "C17"], crates=CR, fn=predicate_limits, witnesses=["ok", "rejected"],
+    "predicate_limits": dict(props=["C16", "C17", "C18"], crates=CR, fn=predicate_limits, witnesses=["ok", "rejected"],
                           bound_text="nodes/edges in {0,999,1000,1001}, predicates in {0,1,99,100,101}, the oversized predicate at any position",
                           replay=dict(kind="check_set")),
 }
